@@ -53,7 +53,7 @@ func main() {
 		return
 	}
 	if len(os.Args) >= 3 && os.Args[1] == "replay" {
-		p := newPool(1, 100, 10*time.Second, "")
+		p := newPool(1, 200, 15*time.Second, filepath.Join(filepath.Dir(os.Args[0]), "gojq-c08"))
 		res := p.run(os.Args[2])
 		fmt.Printf("%s\n%s\n", res.class, res.detail)
 		p.close()
@@ -294,14 +294,16 @@ func loadCorpus() []corpusQuery {
 	var out []corpusQuery
 	for _, t := range tests {
 		cq := corpusQuery{input: t.Input, args: t.Args, env: t.Env, query: "."}
-		rest, opts, err := cli.VerifC08ParseFlags(t.Args)
-		_ = opts
-		if err == nil && len(rest) > 0 {
-			cq.query = rest[0]
-			if bs, err := os.ReadFile(filepath.Join(repoDir(), "cli", rest[0])); err == nil && len(rest[0]) < 100 {
-				cq.query = string(bs) // -f file
+		func() {
+			defer func() { _ = recover() }() // a panicking parseFlags is the flags/cli streams' business
+			rest, _, err := cli.VerifC08ParseFlags(t.Args)
+			if err == nil && len(rest) > 0 {
+				cq.query = rest[0]
+				if bs, err := os.ReadFile(filepath.Join(repoDir(), "cli", rest[0])); err == nil && len(rest[0]) < 100 {
+					cq.query = string(bs) // -f file
+				}
 			}
-		}
+		}()
 		out = append(out, cq)
 	}
 	return out
